@@ -48,6 +48,13 @@ def initial_states(role: str) -> t.List[t.Tuple[str, t.Any, t.List[t.Any]]]:
     return out
 
 
+def recv_events(role: str) -> t.List[sess.Event]:
+    """Deliveries interleaved with the sends and drains: one the session accepts, and the ones that close it."""
+    if role == "client":
+        return [("recv", "Notice", 0), ("recv", "ExtResp", 99), ("garbage", "0400", -1), ("recv", "Unbind", 0)]
+    return [("recv", "ExtReq", 3), ("recv", "Unbind", 0), ("garbage", "0400", -1), ("recv", "ExtResp", 1)]
+
+
 def send_events(role: str) -> t.List[sess.Event]:
     if role == "client":
         return [("call", n, -1) for n in sess.CLIENT_CALLS] + [("callbad", n, -1) for n in sess.CLIENT_BAD]
@@ -87,7 +94,7 @@ def explore(role: str, max_sends: int, cap: int = 200_000) -> t.Dict[str, t.Any]
                 pending = len(stream) - drained
                 evs: t.List[t.Any] = [("drain", a, -1) for a in AMOUNTS]
                 if nsend < max_sends:
-                    evs += send_events(role)
+                    evs += send_events(role) + recv_events(role)
                 for ev in evs:
                     s2 = copy.deepcopy(s)
                     twin2 = twin
@@ -115,6 +122,29 @@ def explore(role: str, max_sends: int, cap: int = 200_000) -> t.Dict[str, t.Any]
                             flag(f"drain-changed-protocol-state:{ev[1]}", f"data_to_send({amt}) changed the session's protocol state", h2)
                             bad = True
                         g2 = (stream, drained + len(exp), nsend)
+                    elif ev[0] in ("recv", "garbage"):
+                        # a delivery -- harmless, or one that closes the session: it queues nothing and takes nothing away
+                        # (what was accepted for sending before is still to be drained, exactly once)
+                        twin2 = copy.deepcopy(twin)
+                        outs = []
+                        for x in (s2, twin2):
+                            try:
+                                sess.apply_event(role, x, ev)
+                                outs.append("ok")
+                            except L.ProtocolError:
+                                outs.append("closed")
+                            except BaseException as e:  # noqa: BLE001
+                                outs.append(type(e).__name__)
+                        exc = None
+                        stats["outcomes"].add(("recv", ev[1], outs[0]))
+                        if outs[0] != outs[1]:
+                            flag(f"pending-bytes-change-delivery:{ev[1]}", f"delivery {ev[1]} ends '{outs[0]}' with {pending} bytes pending but '{outs[1]}' with none", h2)
+                            bad = True
+                        extra = twin2.data_to_send()
+                        if extra:
+                            flag(f"delivery-queued-bytes:{ev[1]}:{outs[1]}", f"receiving {ev[1]} put {len(extra)} bytes into the outgoing stream: {extra.hex()[:60]}", h2)
+                            bad = True
+                        g2 = (stream, drained, nsend + 1)
                     else:
                         # expected encoding of this call: what the always-drained twin emits
                         probe = twin2 = copy.deepcopy(twin)
@@ -155,7 +185,7 @@ def explore(role: str, max_sends: int, cap: int = 200_000) -> t.Dict[str, t.Any]
                     rest = copy.deepcopy(s2).data_to_send()
                     exp_rest = g2[0][g2[1] :]
                     if rest != exp_rest:
-                        why = "refused" if ev[0] in ("call", "callbad") and exc is not None else "accepted" if ev[0] in ("call", "callbad") else "drain"
+                        why = "refused" if ev[0] in ("call", "callbad") and exc is not None else "accepted" if ev[0] in ("call", "callbad") else "delivery" if ev[0] in ("recv", "garbage") else "drain"
                         flag(f"pending-differs-after:{ev[0]}:{ev[1]}:{why}", f"after {ev} the session holds {rest.hex()[:50]} ({len(rest)} bytes); accepted sends minus drained bytes = {exp_rest.hex()[:50]} ({len(exp_rest)} bytes)", h2)
                         bad = True
                     if A.public_view(s2) != A.public_view(twin2):
